@@ -108,3 +108,52 @@ func H_C12_reassembly() {
 	}
 	verifAssert(bytes.Equal(out, data), "reads-back-original")
 }
+
+// The block encoder is cut (C11 decides it): a block encodes to 4 bytes determined by the harness
+// fields of its header, through whichever of the ser entry points MakePartSet uses.
+func c12Enc(val interface{}) []byte {
+	b := val.(*Block)
+	return []byte{0xE0, byte(b.Height), byte(b.NumTxs), 0x0E}
+}
+func stub_c12_encodetobytes(val interface{}) ([]byte, error) { return c12Enc(val), nil }
+func stub_c12_encode(w io.Writer, val interface{}) error {
+	_, err := w.Write(c12Enc(val))
+	return err
+}
+func stub_c12_encodewriter(w io.Writer, val interface{}) (int64, error) {
+	n, err := w.Write(c12Enc(val))
+	return int64(n), err
+}
+
+// The part set made for one block stays that block's part set whatever is made afterwards: the
+// proposer keeps it (ProposalBlockParts, LockedBlockParts, ValidBlockParts) and gossips from it while
+// later blocks are built. Its parts keep their bytes, are accepted by a receiver holding the
+// original header, and reassemble to the original encoding.
+//
+//verif:stub github.com/lianxiangcloud/linkchain/libs/ser.EncodeToBytes => stub_c12_encodetobytes
+//verif:stub github.com/lianxiangcloud/linkchain/libs/ser.Encode => stub_c12_encode
+//verif:stub github.com/lianxiangcloud/linkchain/libs/ser.EncodeWriter => stub_c12_encodewriter
+//verif:opt unwind=12 budget_s=600
+func H_C12_partset_of_a_block_outlives_later_blocks() {
+	a := &Block{Header: &Header{Height: uint64(verifNondetByte()), NumTxs: uint64(verifNondetByte())}, Data: &Data{}}
+	b := &Block{Header: &Header{Height: uint64(verifNondetByte()), NumTxs: uint64(verifNondetByte())}, Data: &Data{}}
+	partSize := 1 + verifCase(3)
+	psA := a.MakePartSet(partSize)
+	want := c12Enc(a)
+	hdr := psA.Header()
+	for k := 0; k < 1+verifCase(2); k++ {
+		b.MakePartSet(partSize) // later blocks of the same node
+	}
+	verifAssert(psA.HasHeader(hdr), "header-unchanged")
+	rx := NewPartSetFromHeader(hdr)
+	var got []byte
+	for i := 0; i < psA.Total(); i++ {
+		g := psA.GetPart(i)
+		got = append(got, g.Bytes...)
+		// as it arrives over the wire: a fresh Part without the sender's cached hash
+		added, err := rx.AddPart(&Part{Index: g.Index, Bytes: append([]byte(nil), g.Bytes...), Proof: g.Proof})
+		verifAssert(added && err == nil, "kept-parts-still-verify-against-the-original-header")
+	}
+	verifAssert(bytes.Equal(got, want), "kept-parts-still-hold-the-original-bytes")
+	verifReach("checked")
+}
